@@ -135,7 +135,8 @@ func runPool(sc poolScenario) (string, string) {
 	}
 	// let the pools settle: every lost connection must have been replaced
 	final := -1
-	for k := 0; k < 600; k++ {
+	settleDL := time.Now().Add(watchdogFull) // an event (every pool full, no filler) is waited for, not a duration
+	for time.Now().Before(settleDL) {
 		ok := true
 		for _, st := range gocql.VerifPoolState(s) {
 			if st[0] != sc.size || st[3] != 0 {
@@ -168,13 +169,23 @@ func runPool(sc poolScenario) (string, string) {
 	case <-time.After(15 * time.Second):
 		return "fatal:Session.Close hangs " + stacks(), "fatal"
 	}
-	time.Sleep(250 * time.Millisecond) // slow dials still in flight finish and must close their connection
+	// slow dials still in flight finish and must close their connection: polled (the slowest scripted dial takes
+	// 230 ms), the watchdog only ends the wait when something stays open
+	after := 0
+	afterDL := time.Now().Add(watchdogFull)
+	time.Sleep(250 * time.Millisecond)
+	for {
+		after = 0
+		for _, n := range cl.Nodes {
+			after += openSockets(n)
+		}
+		if after == 0 || time.Now().After(afterDL) {
+			break
+		}
+		time.Sleep(2 * time.Millisecond)
+	}
 	close(stop)
 	mwg.Wait()
-	after := 0
-	for _, n := range cl.Nodes {
-		after += openSockets(n)
-	}
 	return fmt.Sprintf("poolobs size=%d maxconns=%d maxopen=%d final=%d afterclose=%d", sc.size,
 		atomic.LoadInt64(&maxConns), atomic.LoadInt64(&maxOpen), final, after), fmt.Sprintf("pool/size%d", sc.size)
 }
